@@ -351,7 +351,7 @@ func runC18(ctx *harness.Ctx) {
 		ctx.NonTrivial(harness.Hash(cs.Input))
 		ctx.Check(t, cs, oracleC18(ctx, cs))
 	})
-	ctx.Rapid("batches", ctx.Pick(50, 2500), func(t *rapid.T) {
+	ctx.Rapid("batches", ctx.Pick(50, 450), func(t *rapid.T) {
 		n := rapid.IntRange(8, 48).Draw(t, "n")
 		var inputs []string
 		withErr := 0
